@@ -29,6 +29,8 @@ def splitTilde (s : String) : List String := s.splitOn "~"
 def parseLook : List String → Option Look
   | "SM" :: pkg :: ty :: p :: m :: eid :: rest =>
     if (p = "0" ∨ p = "1") ∧ eid.toNat?.isSome ∧ rest.length ≤ 1 then some (.structMethod ⟨pkg.toList, ty.toList, p = "1"⟩ m.toList) else none
+  | "SP" :: pkg :: ty :: p :: m :: eid :: rest =>   -- `Struct(&T{}).Method(m)` for a value method of T (p = 1)
+    if p = "1" ∧ eid.toNat?.isSome ∧ rest.length ≤ 1 then some (.structMethod ⟨pkg.toList, ty.toList, true⟩ m.toList) else none
   | "SX" :: pkg :: ty :: p :: m :: eid :: rest =>
     if (p = "0" ∨ p = "1") ∧ eid.toNat?.isSome ∧ rest.length ≤ 1 then some (.structExport ⟨pkg.toList, ty.toList, p = "1"⟩ m.toList) else none
   | ["ES", pkg, raw, m, eid] => if eid.toNat?.isSome then some (.exportStruct pkg.toList raw.toList m.toList) else none
